@@ -38,23 +38,35 @@ Lemma window_ties_witness :
   sem_gen fl_pandas ex_window ex_window_env = Some (mktable ["k"; "a"; "c"] [[n 1; n 2; n 2]; [n 1; n 1; n 3]]).
 Proof. vm_compute. repeat split. Qed.
 
-(* ---- 4. a scratch column survives (the listed finding C16-pandas-overlap-leftover-column): a left key that is also a non-key
-        column of the right table and is paired with a differently named right key *)
+(* ---- 4. (history) a left key that is also a non-key column of the right table, paired with a differently named right key: before
+        /repo 756a9c2 the suffixed copy `p_tmp_right_col` survived (finding C16-pandas-overlap-leftover-column); the loop now folds
+        back every suffixed copy merge produced, and the case is covered by the theorems *)
 Definition ex_overlap : op := OJoin (OTable "d1" ["p"; "a"]) (OTable "d2" ["q"; "p"; "b"]) ["p"] ["q"] JInner.
 Definition ex_overlap_env : env := [("d1", mktable ["p"; "a"] [[n 1; n 10]]); ("d2", mktable ["q"; "p"; "b"] [[n 1; n 7; n 5]])].
-Lemma scratch_survives_witness :
-  pexec q_code ex_overlap ex_overlap_env = Some (mktable ["p"; "a"; "q"; "p_tmp_right_col"; "b"] [[n 1; n 10; n 1; n 7; n 5]]) /\
-  column_names ex_overlap = ["p"; "a"; "q"; "b"] /\ wf_op_b ex_overlap = false.
+Lemma overlap_now_clean :
+  wf_op_b ex_overlap = true /\
+  pexec q_code ex_overlap ex_overlap_env = Some (mktable ["p"; "a"; "q"; "b"] [[n 1; n 10; n 1; n 5]]) /\
+  sem_gen fl_pandas ex_overlap ex_overlap_env = Some (mktable ["p"; "a"; "q"; "b"] [[n 1; n 10; n 1; n 5]]).
 Proof. vm_compute. repeat split. Qed.
 
-(* ---- 5. the closing keyed check of _project_step raises when every group key contains a null (finding
-        PEXEC-project-keyed-check-drops-null-keys); with dropna=False in that check the groups come back *)
+(* ---- 4b. null keys: both tables have a row with a null key; pandas.merge alone would pair them, the marker column prevents it
+        (since /repo af27aca), as in SQL and in sem_gen fl_pandas *)
+Definition ex_nulljoin : op := OJoin (OTable "d1" ["k"; "a"]) (OTable "d2" ["k"; "b"]) ["k"] ["k"] JFull.
+Definition ex_nulljoin_env : env := [("d1", mktable ["k"; "a"] [[VNull; n 1]; [n 2; n 3]]); ("d2", mktable ["k"; "b"] [[VNull; n 5]; [n 2; n 7]])].
+Lemma null_keys_never_match :
+  wf_op_b ex_nulljoin = true /\
+  pexec q_code ex_nulljoin ex_nulljoin_env = Some (mktable ["k"; "a"; "b"] [[n 2; n 3; n 7]; [VNull; VNull; n 5]; [VNull; n 1; VNull]]) /\
+  sem_gen fl_pandas ex_nulljoin ex_nulljoin_env = Some (mktable ["k"; "a"; "b"] [[n 2; n 3; n 7]; [VNull; n 1; VNull]; [VNull; VNull; n 5]]).
+Proof. vm_compute. repeat split. Qed.
+
+(* ---- 5. (history) the closing keyed check of _project_step raised when every group key contained a null (finding
+        PEXEC-project-keyed-check-drops-null-keys, fixed by /repo db5bdc2: dropna=False in that check) *)
 Definition ex_nullkeys : op := OProject (OTable "d" ["g"; "h"; "x"]) [("s", EOp "sum" [ECol "x"])] ["g"; "h"].
 Definition ex_nullkeys_env : env := [("d", mktable ["g"; "h"; "x"] [[VNull; n 1; n 1]; [VNull; n 2; n 2]; [VNull; n 2; n 3]])].
 Lemma keyed_check_witness :
   wf_op_b ex_nullkeys = true /\
-  pexec q_code ex_nullkeys ex_nullkeys_env = None /\
-  pexec (mkq false) ex_nullkeys ex_nullkeys_env = Some (mktable ["g"; "h"; "s"] [[VNull; n 1; n 1]; [VNull; n 2; n 5]]) /\
+  pexec q_before_db5bdc2 ex_nullkeys ex_nullkeys_env = None /\
+  pexec q_code ex_nullkeys ex_nullkeys_env = Some (mktable ["g"; "h"; "s"] [[VNull; n 1; n 1]; [VNull; n 2; n 5]]) /\
   sem_gen fl_pandas ex_nullkeys ex_nullkeys_env = Some (mktable ["g"; "h"; "s"] [[VNull; n 1; n 1]; [VNull; n 2; n 5]]).
 Proof. vm_compute. repeat split. Qed.
 
@@ -112,17 +124,9 @@ Proof.
   - specialize (R "a"). vm_compute in R. discriminate R.
 Qed.
 
-Lemma scratch_column_survives_refuted :
-  exists p e t, pexec q_code p e = Some t /\ ~ (forall c, In c (cols t) <-> In c (column_names p)).
-Proof.
-  exists ex_overlap, ex_overlap_env. eexists. destruct scratch_survives_witness as [P [C _]]. split; [exact P|]. cbn [cols]. rewrite C.
-  intros H. assert (In "p_tmp_right_col" ["p"; "a"; "q"; "b"]) as I by (apply H; right; right; right; left; reflexivity).
-  cbn [In] in I. repeat (destruct I as [I|I]; [discriminate I|]). exact I.
-Qed.
-
 Lemma project_keyed_check_refuted :
   exists p e t', wf_op_b p = true /\ perm_guard_b fl_pandas p e = true /\ sem_gen fl_pandas p e = Some t' /\
-                 pexec q_code p e = None /\ pexec (mkq false) p e = Some t'.
+                 pexec q_before_db5bdc2 p e = None /\ pexec q_code p e = Some t'.
 Proof.
   exists ex_nullkeys, ex_nullkeys_env. eexists. destruct keyed_check_witness as [W [P1 [P2 S]]].
   split; [exact W|]. split; [vm_compute; reflexivity|]. split; [exact S|]. split; [exact P1|exact P2].
